@@ -51,7 +51,7 @@ func (g *Generator) parseFields(typeName string) types.Type {
 			}
 		}
 
-		ast.Inspect(f, func(n ast.Node) bool {
+		shoot.InspectTopLevel(f, func(n ast.Node) bool {
 			if !g.testNode(typeName, n) {
 				return true
 			}
